@@ -1,4 +1,5 @@
 pub mod component;
+pub mod differential;
 pub mod hostile;
 pub mod lifecycle;
 pub mod lockstep;
@@ -36,6 +37,7 @@ pub fn dispatch(engine: &str, ctx: &Ctx, rng: Rng, rep: &mut Report) {
         "policy" => component::run_policy(ctx, rng, rep),
         "lockstep" => lockstep::run(ctx, rng, rep),
         "hostile" => hostile::run(ctx, rng, rep),
+        "differential" => differential::run(ctx, rng, rep),
         "close" => lifecycle::run_close(ctx, rng, rep),
         "waitrace" => lifecycle::run_waitrace(ctx, rng, rep),
         "grid" => lifecycle::run_grid(ctx, rng, rep),
